@@ -173,7 +173,7 @@ def run_one(h, slot, extra_args=(), log_dir=None, harness_dir=None):
     return Result(h, status, round(wall, 2), failed, cov, stats, out)
 
 
-def run_pool(harnesses, jobs=None, mem_budget_gb=52, log_dir=None, progress=True):
+def run_pool(harnesses, jobs=None, mem_budget_gb=88, log_dir=None, progress=True):
     """Run harnesses in parallel; each worker owns a cargo target dir."""
     jobs = jobs or int(os.environ.get("VERIF_JOBS", "14"))
     jobs = max(1, min(jobs, len(harnesses)))
